@@ -17,15 +17,38 @@ def _runtime(case):
             vals.append(["entry_jobs=%d parallel_rules=%s rule_jobs=%d" % (nj, pr, rj), res])
     elif what == "validate":
         from synkit.Chem.Reaction.aam_validator import AAMValidator
+        opts = dict(case.get("opts", {}))
         for nj in case["jobs"]:
             res = AAMValidator.validate_smiles([dict(d) for d in case["data"]], ground_truth_col="gt", mapped_cols=["m1", "m2"],
-                                               check_method=case.get("method", "RC"), n_jobs=nj)
+                                               check_method=case.get("method", "RC"), n_jobs=nj, **opts)
             vals.append(["n_jobs=%d" % nj, json.loads(json.dumps(res, default=str))])
+        # the reference every worker count is compared with: row by row through the single-pair entry point
+        ref = []
+        for col in ("m1", "m2"):
+            rows = [bool(AAMValidator.check_pair(dict(d), col, "gt", case.get("method", "RC"), opts.get("ignore_aromaticity", False),
+                                                 opts.get("ignore_tautomers", True))) for d in case["data"]]
+            ref.append(rows)
+        vals.append(["row-by-row check_pair", [dict(v, results=[bool(x) for x in r]) for v, r in zip(vals[0][1], ref)]])
     elif what == "balance":
         from synkit.Chem.Reaction.balance_check import BalanceReactionCheck
         for nj in case["jobs"]:
-            b, u = BalanceReactionCheck(n_jobs=nj).dicts_balance_check([dict(d) for d in case["data"]], rsmi_column="reactions")
-            vals.append(["n_jobs=%d" % nj, [b, u]])
+            chk = BalanceReactionCheck(n_jobs=nj)
+            b, u = chk.dicts_balance_check([dict(d) for d in case["data"]], rsmi_column="reactions")
+            out = [b, u]
+            if case.get("second_pass"):
+                # the caller edits the RESULT dicts of the first pass (they carry a "balanced" key) and checks them again with the
+                # same checker object: every verdict must be recomputed from the reaction that is in the dict now
+                again = [dict(d) for d in b + u]
+                rs = [d["reactions"] for d in again]
+                for d, r in zip(again, rs[1:] + rs[:1]):
+                    d["reactions"] = r
+                b2, u2 = chk.dicts_balance_check(again, rsmi_column="reactions")
+                fresh = BalanceReactionCheck(n_jobs=1).dicts_balance_check(
+                    [{k: v for k, v in d.items() if k != "balanced"} for d in again], rsmi_column="reactions")
+                out += [b2, u2, [b2, u2] == [fresh[0], fresh[1]]]
+            vals.append(["n_jobs=%d" % nj, out])
+        if case.get("second_pass"):
+            vals.append(["second pass equals a fresh check of the edited dicts", vals[0][1][:4] + [True]])
     elif what == "syncrn":
         from synkit.CRN.DAG.syncrn import SynCRN
         for par, mw in case["jobs"]:
